@@ -56,14 +56,16 @@ fn long_seq(rng: &mut Rng, n: usize, dense: bool) -> Vec<u8> {
     }
     // period 2: every window of every (w, m) used here holds both rotations, so all 4500 windows share one minimiser
     let unit: Vec<u8> = rng.pick(&[b"AC", b"AG", b"CT", b"GA", b"TC", b"CA"]).to_vec();
-    let gap_end = n.saturating_sub(6000).max(1500);
+    // (n of 450 000 or more: the repeat is 140 000 bases long - more than 2^17 windows with one minimiser)
+    let rep = if n >= 450_000 { 140_000 } else { 4500 };
+    let gap_end = n.saturating_sub(rep + 1500).max(1500);
     (0..n)
         .map(|x| {
             if x < 1500 {
                 *rng.pick(b"ACGTacgtUu")
             } else if x < gap_end {
                 if x % 997 > 5 { *rng.pick(b"N-*.") } else { *rng.pick(b"ACGT") }
-            } else if x < gap_end + 4500 {
+            } else if x < gap_end + rep {
                 unit[x % 2]
             } else {
                 *rng.pick(b"ACGTacgtUu")
@@ -82,8 +84,7 @@ pub fn min_mid(seed: u64, kv: bool) {
     } else {
         m + *rng.pick(&[1usize, 2, 3, 5, 8, 16, 17, 32, 33, 64, 65, 100, 128, 129, 256, 257]) - 1
     };
-    // (the judge recomputes every window's minimiser: keep windows x m-mers per window x m within a budget)
-    let windows = (4_000_000 / ((w - m + 1) * m * m)).clamp(60, 2500);      // (comparing two m-mers is quadratic in m for TLC)
+    let windows = 2500usize;
     let n = windows + w;
     let style = rng.below(3);
     let unit: Vec<u8> = (0..(2 + rng.below(9))).map(|_| *rng.pick(b"ACGT")).collect();
@@ -103,6 +104,40 @@ pub fn min_mid(seed: u64, kv: bool) {
     } else {
         minimiser_run(&s, w, m);
     }
+    println!("{}", json!({"ev":"eof"}));
+}
+
+/// trace minsame <seed> <len>: the plain and the k-mer-reporting iterator on the same long input (w <= 31): same runs
+/// (C18, first clause), as an eq event on the two run lists; the plain iterator's runs on such inputs are judged by LongTrace
+pub fn min_same(seed: u64, len: usize) {
+    let mut rng = Rng::new(seed);
+    for (w, m) in [(21usize, 9usize), (12, 7), (31, 28), (9, 8), (31, 5)] {
+        let s = long_seq(&mut rng, len, false);
+        let plain: Vec<(u64, usize, usize)> = MinimiserGenerator::new(&s, w, m).collect();
+        let kv: Vec<(u64, usize, usize)> = KmerMinimiserGenerator::new(&s, w, m).map(|(v, a, b, _)| (v, a, b)).collect();
+        let show = |r: &Vec<(u64, usize, usize)>| {
+            let longest = r.iter().map(|x| x.2 - x.1).max().unwrap_or(0);
+            format!("{} runs, longest span {}, fnv {}", r.len(), longest, crate::paths::fnv(format!("{:?}", r).as_bytes()))
+        };
+        println!("{}", json!({"ev":"eq","what":format!("plain = with-k-mers, runs on {} bases, w={} m={}", len, w, m),"a":show(&plain),"b":show(&kv)}));
+    }
+    println!("{}", json!({"ev":"eof"}));
+}
+
+/// trace minwide <seed>: a window of more than 2^16 m-mers (w = m + 65 600 - 1, m = 5) over 66 500 bases of C/G background
+/// with one small m-mer near the start and another one more than 2^16 positions later: when the first leaves the window the
+/// new leftmost minimum sits in a slot beyond 65 536
+pub fn min_wide(seed: u64) {
+    let mut rng = Rng::new(seed);
+    let m = 5usize;
+    let w = m + 65_600 - 1;
+    let n = w + 900;
+    let mut s: Vec<u8> = (0..n).map(|_| *rng.pick(b"CG")).collect();
+    let p0 = 150 + rng.below(100) as usize;
+    s[p0..p0 + 6].copy_from_slice(b"AAAAAG");       // (the m-mer after it, AAAAG, is larger than the far one, AAAAC)
+    let p1 = p0 + 65_560 + rng.below(30) as usize;
+    s[p1..p1 + 5].copy_from_slice(b"AAAAC");
+    minimiser_run(&s, w, m);
     println!("{}", json!({"ev":"eof"}));
 }
 
